@@ -536,3 +536,16 @@ func retContainsCall(f *eng.Fn, rs *ast.ReturnStmt, pat string) *ast.CallExpr {
 	}
 	return nil
 }
+
+// optFloor returns the floor a caller passed, or the default of the rule.
+func optFloor(f []int, def int) int {
+	if len(f) > 0 {
+		return f[0]
+	}
+	return def
+}
+
+// sameExpr: two expressions are the same variable or field path.
+func sameExpr(a, b ast.Expr) bool {
+	return types.ExprString(ast.Unparen(a)) == types.ExprString(ast.Unparen(b))
+}
